@@ -1,7 +1,8 @@
-"""writes /verif/MANIFEST.json from the table below (run after adding a check)"""
+"""writes /verif/MANIFEST.json from the check classes (run after adding a check):
+    PYTHONPATH=/verif /venv/bin/python -m harness.mkmanifest"""
+import importlib
 import json
 import os
-import sys
 
 HERE = os.path.dirname(os.path.dirname(os.path.abspath(__file__)))
 TITLES = {}
@@ -13,21 +14,22 @@ COMMON_NOTE = ('Trusted: Lean 4.33 kernel; axioms propext/Classical.choice/Quot.
                'hand-written model; the table extractor and the differential correspondence harness that tie the model '
                'to /repo; CPython semantics of the mirrored constructs; library calls listed in DESIGN.md section 5.')
 
-# pid -> (design_ref, level text, technique, extra note)
-CHECKS = {
-    'C17': ('6/C17', 'Lean theorems over the model of get_first_range/_file_iter_range/static_file for all headers, '
-            'lengths, schedules and buffers (bounds, 206 self-consistency, RFC 7233 clipping of the first range-spec, '
-            '304/HEAD); model tied to the code by a differential run on real files every time.',
-            'Lean 4 proof + differential correspondence', 'date parsing, stat and file stability are assumed'),
-}
+PENDING_REASON = ('check not built yet; design in DESIGN.md section 6 (to be claimed once its model, theorems and '
+                  'correspondence exist)')
 
-PENDING_REASON = 'check not built yet in this round; design in DESIGN.md section 6 (to be claimed once its model, theorems and correspondence exist)'
+# property id -> reason, for properties that stay unclaimed for a reason other than "not built yet"
+NOT_APPLICABLE = {}
 
 
 def main():
-    checks = []
-    for pid in sorted(CHECKS):
-        ref, text, tech, note = CHECKS[pid]
+    checks, claimed = [], []
+    for pid in sorted(TITLES):
+        if not os.path.exists(os.path.join(HERE, 'harness', pid.lower() + '.py')):
+            continue
+        cls = getattr(importlib.import_module('harness.' + pid.lower()), pid)
+        if not getattr(cls, 'claimed', True):
+            continue
+        claimed.append(pid)
         checks.append(dict(
             property_id=pid,
             quick_cmd=f'./check {pid} --tier quick',
@@ -35,24 +37,30 @@ def main():
             evidence_file=f'evidence/{pid}.json',
             replay_cmd_template=f'./check {pid} --replay {{path}}',
             engine='lean4-model',
-            level_claimed=dict(category='proof', text=text, design_ref=ref),
-            level_note=COMMON_NOTE + ' ' + note,
-            technique=tech,
+            level_claimed=dict(category=cls.level_category, text=cls.level_text, design_ref=cls.design_ref),
+            level_note=(COMMON_NOTE + ' ' + cls.level_note_extra).strip(),
+            technique=cls.technique,
         ))
+    old = {}
+    mp = os.path.join(HERE, 'MANIFEST.json')
+    if os.path.exists(mp):
+        old = json.load(open(mp))
     man = dict(
         version=1,
         setup_cmd='cd lean && lake build',
-        hooks=dict(guard='VALQ7711_OMBOTT_VERIF',
-                   enable='no source hooks are needed: the harness wraps wsgi.input, open, pickle.loads and uses sys.settrace; the guard variable is set by ./check for future hooks',
-                   baseline_off_cmd='cd /repo && env -u VALQ7711_OMBOTT_VERIF /venv/bin/python -m pytest -ra -q -p no:cacheprovider --timeout=900 --continue-on-collection-errors',
-                   source_commits=[], add_only=True),
-        engines=[dict(name='lean4-model', path='lean/', serves_properties=sorted(CHECKS),
-                      kind_free_text='hand-written executable Lean 4 models + theorems (lake project OmbottModel), tied to /repo by regenerated tables (harness/extract_tables.py) and a line-protocol differential correspondence (harness/core.py, Driver.lean); independent Python search oracles produce replays')],
+        hooks=old.get('hooks') or dict(
+            guard='VALQ7711_OMBOTT_VERIF',
+            enable='no source hooks are needed: the harness wraps wsgi.input, open, pickle.loads and uses sys.settrace; the guard variable is set by ./check for future hooks',
+            baseline_off_cmd='cd /repo && env -u VALQ7711_OMBOTT_VERIF /venv/bin/python -m pytest -ra -q -p no:cacheprovider --timeout=900 --continue-on-collection-errors',
+            source_commits=[], add_only=True),
+        engines=[dict(name='lean4-model', path='lean/', serves_properties=claimed,
+                      kind_free_text='hand-written executable Lean 4 models + theorems (lake project OmbottModel), tied to /repo by regenerated tables (harness/extract_tables.py, harness/tables/) and a line-protocol differential correspondence (harness/core.py, Driver.lean); independent Python search oracles produce replays')],
         checks=checks,
         notes='See DESIGN.md. Exit 2 = infrastructure failure (never a VIOLATION).',
-        not_applicable=[dict(property_id=pid, reason=PENDING_REASON) for pid in sorted(TITLES) if pid not in CHECKS],
+        not_applicable=[dict(property_id=pid, reason=NOT_APPLICABLE.get(pid, PENDING_REASON))
+                        for pid in sorted(TITLES) if pid not in claimed],
     )
-    with open(os.path.join(HERE, 'MANIFEST.json'), 'w') as f:
+    with open(mp, 'w') as f:
         json.dump(man, f, indent=1)
     print('checks', len(checks), 'pending', len(man['not_applicable']))
 
